@@ -772,7 +772,7 @@ pub fn run(cfg: &Cfg) -> Outcome {
         let replay = json!({"seed": cfg.seed, "stream": 220, "case": 1, "hand_made": true, "image": img2.describe(), "object_attributes": id.json()});
         check_pipeline(&mut base, &img2, &id, &id, Mode::DefaultPipeline, &replay);
     }
-    let per_cfg = cfg.n(24, 600);
+    let per_cfg = cfg.n(24, 480);
     let local = run_parallel(
         cfg,
         22,
